@@ -350,7 +350,8 @@ def _rand_shard(seed, n, known, gcc_every):
                 if "\\\n" not in text and not any(dl for dl in m["directives"]):
                     g = gcc_counted_lines(out)
                     if g != m["counted"]:
-                        raise core.HarnessError(f"reference scanner disagrees with gcc -E on {text!r}: scanner={sorted(m['counted'])} gcc={sorted(g)}")
+                        r.oracle_disagreement(f"reference scanner disagrees with gcc -E on {text!r}: scanner={sorted(m['counted'])} gcc={sorted(g)}")
+                        return []
                     r.extra["gcc_confirmed_scanner"] = r.extra.get("gcc_confirmed_scanner", 0) + 1
                 r.extra["gcc_silent_checked"] = r.extra.get("gcc_silent_checked", 0) + 1
             vs = check_text(text, r, path, allow_any_directive=True)
